@@ -1195,4 +1195,11 @@ theorem Inv.step_launch (fl : Flags) (hfl : fl.readyGuarded = true) {s : St} (h 
   have hpc := (t1 j).launch hl
   exact ⟨hpc, fun d hd o ho => ⟨h.lockEnter_done hpc d hd o ho, (t1 o).done (h.lockEnter_done hpc d hd o ho)⟩⟩
 
+/-! ### a concrete run used by the `example`s of `Properties/C04.lean` -/
+
+/-- job 1 depends on job 0 and on a token; after these events job 0 is done and job 1 is at `lockEnter`. -/
+def exEvs : List Ev := [.submit 0 [] 0 false, .submit 1 [.job 0, .tok 0 1] 0 false, .step, .step,
+  .deliver 0, .step, .deliver 0, .step, .deliver 0, .step, .deliver 0, .step, .step, .step, .deliver 0]
+def exS : St := run flOK (St.init [2]) exEvs
+
 end XpmVerif.SchedDeps
